@@ -1,7 +1,7 @@
 import GeffProofs.Dicts
 /-! Lemmas about the backend models (`GeffModel/Backends.lean`) used by the C03 theorems. -/
 namespace Geff.Backends
-open Geff.Np Geff.Dicts
+open Geff.Np Geff.Dicts Geff.Graph
 
 /-! ### entries of a column, per-element dicts -/
 
@@ -407,6 +407,520 @@ theorem edgeProps_fold (ids : List (Int × Int)) (props : List (String × Col)) 
       exact hds
     · simp only [List.foldlM_cons, h1, bind, Except.bind]
       exact hfold
+
+
+
+/-- a valid in-memory geff: unique node ids, edges between existing nodes, no edge twice (in either
+orientation when undirected), property names unique, every column as long as its element list -/
+structure MemValid (m : MemGeff) : Prop where
+  nodup : m.nodeIds.Nodup
+  endpoints : ∀ e ∈ m.edgeIds, e.1 ∈ m.nodeIds ∧ e.2 ∈ m.nodeIds
+  simple : m.edgeIds.Pairwise (fun a b => sameEdge m.directed a b = false)
+  nodeNames : (m.nodeProps.map (·.1)).Nodup
+  edgeNames : (m.edgeProps.map (·.1)).Nodup
+  nodeCols : ∀ p ∈ m.nodeProps, p.2.WF m.nodeIds.length
+  edgeCols : ∀ p ∈ m.edgeProps, p.2.WF m.edgeIds.length
+
+/-- SPECIFICATION: the attribute `name` node `i` has in the graph an in-memory geff denotes -/
+def specNodeAttr (m : MemGeff) (i : Int) (name : String) : Option PyVal :=
+  match m.nodeIds.findIdx? (fun x => x = i) with
+  | none => none
+  | some k => memAttr m.nodeProps k name
+
+/-- SPECIFICATION: the attribute `name` of edge `e` (either orientation when undirected) -/
+def specEdgeAttr (m : MemGeff) (e : Int × Int) (name : String) : Option PyVal :=
+  match m.edgeIds.findIdx? (fun x => sameEdge m.directed x e) with
+  | none => none
+  | some k => memAttr m.edgeProps k name
+
+theorem findIdx?_lt {α : Type} (p : α → Bool) (l : List α) (k : Nat) (h : l.findIdx? p = some k) : k < l.length := by
+  induction l generalizing k with
+  | nil => simp at h
+  | cons a t ih =>
+    simp only [List.findIdx?_cons] at h
+    cases hp : p a with
+    | true => simp [hp] at h; subst h; simp
+    | false =>
+      simp only [hp, Bool.false_eq_true, if_false, Option.map_eq_some_iff] at h
+      obtain ⟨k', hk', rfl⟩ := h
+      have := ih k' hk'
+      simp; omega
+
+theorem map_pair_eq_zip {α : Type} (l : List α) : l.map (fun i => (i, ([] : Attrs))) = l.zip (List.replicate l.length []) := by
+  induction l with
+  | nil => rfl
+  | cons a t ih => simp [List.replicate_succ, ih]
+
+theorem attr_of_zip {κ : Type} (p : κ → Bool) (keys : List κ) (ds : List Attrs) (hlen : ds.length = keys.length)
+    (name : String) :
+    attrOf? ((keys.zip ds).find? (fun x => p x.1)) name =
+    match keys.findIdx? p with
+    | none => none
+    | some k => look ds k name := by
+  rw [find?_zip p keys ds hlen]
+  cases h : keys.findIdx? p with
+  | none => rfl
+  | some k =>
+    have hk := findIdx?_lt p keys k h
+    have hk' : k < ds.length := by omega
+    have hz : (keys.zip ds)[k]? = some (keys[k], ds[k]) := by
+      rw [List.getElem?_eq_getElem (by simp; omega)]
+      simp
+    simp [attrOf?, look, hz, List.getElem?_eq_getElem hk']
+
+theorem nxConstruct_spec (m : MemGeff) (h : MemValid m) :
+    ∃ g, nxConstruct m = .ok g ∧ g.directed = m.directed ∧ g.nodes.map (·.1) = m.nodeIds ∧
+      g.edges.map (·.1) = m.edgeIds ∧
+      (∀ i name, g.nodeAttr i name = specNodeAttr m i name) ∧
+      (∀ e name, g.edgeAttr e name = specEdgeAttr m e name) := by
+  -- nodes
+  have h1 : m.nodeIds.foldl NxGraph.addNode ⟨m.directed, [], []⟩ =
+      ⟨m.directed, m.nodeIds.zip (List.replicate m.nodeIds.length []), []⟩ := by
+    rw [foldl_addNode m.directed [] [] m.nodeIds h.nodup (by simp)]
+    simp [map_pair_eq_zip]
+  obtain ⟨ds, hds, hdl, hfold⟩ := nodeProps_fold m.nodeIds m.nodeProps
+    ⟨m.directed, m.nodeIds.zip (List.replicate m.nodeIds.length []), []⟩ (List.replicate m.nodeIds.length [])
+    rfl h.nodup (by simp) h.nodeCols
+  obtain ⟨ds', hds', _, hlook⟩ := fillDicts_spec m.nodeIds.length m.nodeProps h.nodeNames h.nodeCols
+  have hdd : ds' = ds := by
+    have : (Except.ok ds' : Except Err _) = Except.ok ds := by rw [← hds', ← hds]; rfl
+    exact Except.ok.inj this
+  subst hdd
+  -- edges
+  have hkeys : (m.nodeIds.zip ds').map (·.1) = m.nodeIds := List.map_fst_zip (by omega)
+  have h3 : m.edgeIds.foldl NxGraph.addEdge ⟨m.directed, m.nodeIds.zip ds', []⟩ =
+      ⟨m.directed, m.nodeIds.zip ds', m.edgeIds.zip (List.replicate m.edgeIds.length [])⟩ := by
+    rw [foldl_addEdge m.directed _ [] m.edgeIds (by rw [hkeys]; exact h.endpoints) (by simpa using h.simple)]
+    simp [map_pair_eq_zip]
+  obtain ⟨es, hes, hel, hefold⟩ := edgeProps_fold m.edgeIds m.edgeProps
+    ⟨m.directed, m.nodeIds.zip ds', m.edgeIds.zip (List.replicate m.edgeIds.length [])⟩
+    (List.replicate m.edgeIds.length []) rfl h.simple (by simp) h.edgeCols
+  obtain ⟨es', hes', _, helook⟩ := fillDicts_spec m.edgeIds.length m.edgeProps h.edgeNames h.edgeCols
+  have hee : es' = es := by
+    have : (Except.ok es' : Except Err _) = Except.ok es := by rw [← hes', ← hes]; rfl
+    exact Except.ok.inj this
+  subst hee
+  refine ⟨⟨m.directed, m.nodeIds.zip ds', m.edgeIds.zip es'⟩, ?_, rfl, hkeys, List.map_fst_zip (by omega), ?_, ?_⟩
+  · unfold nxConstruct
+    simp only [h1, hfold, h3, hefold]
+  · intro i name
+    have := attr_of_zip (fun x => decide (x = i)) m.nodeIds ds' hdl name
+    simp only [NxGraph.nodeAttr, specNodeAttr]
+    rw [this]
+    cases hk : m.nodeIds.findIdx? (fun x => decide (x = i)) with
+    | none => rfl
+    | some k => exact hlook k (findIdx?_lt _ _ k hk) name
+  · intro e name
+    have := attr_of_zip (fun x => sameEdge m.directed x e) m.edgeIds es' hel name
+    simp only [NxGraph.edgeAttr, specEdgeAttr]
+    rw [this]
+    cases hk : m.edgeIds.findIdx? (fun x => sameEdge m.directed x e) with
+    | none => rfl
+    | some k => exact helook k (findIdx?_lt _ _ k hk) name
+
+
+
+/-! ### rustworkx -/
+
+theorem findIdx?_getElem {α : Type} (p : α → Bool) (l : List α) (k : Nat) (h : l.findIdx? p = some k) :
+    ∃ hk : k < l.length, p l[k] = true := by
+  induction l generalizing k with
+  | nil => simp at h
+  | cons a t ih =>
+    simp only [List.findIdx?_cons] at h
+    cases hp : p a with
+    | true => simp [hp] at h; subst h; exact ⟨by simp, by simpa using hp⟩
+    | false =>
+      simp only [hp, Bool.false_eq_true, if_false, Option.map_eq_some_iff] at h
+      obtain ⟨k', hk', rfl⟩ := h
+      obtain ⟨hk2, hp2⟩ := ih k' hk'
+      exact ⟨by simp; omega, by simpa using hp2⟩
+
+theorem findIdx?_none_iff {α : Type} (p : α → Bool) (l : List α) : l.findIdx? p = none ↔ ∀ x ∈ l, p x = false := by
+  induction l with
+  | nil => simp
+  | cons a t ih =>
+    simp only [List.findIdx?_cons]
+    cases hp : p a with
+    | true => simp [hp]
+    | false => simp [hp, ih]
+
+theorem findIdx?_congr {α : Type} (p q : α → Bool) (l : List α) (h : ∀ x ∈ l, p x = q x) :
+    l.findIdx? p = l.findIdx? q := by
+  induction l with
+  | nil => rfl
+  | cons a t ih =>
+    simp only [List.findIdx?_cons, h a (by simp), ih (fun x hx => h x (by simp [hx]))]
+
+theorem findIdx?_map' {α β : Type} (f : α → β) (q : β → Bool) (l : List α) :
+    (l.map f).findIdx? q = l.findIdx? (fun x => q (f x)) := by
+  induction l with
+  | nil => rfl
+  | cons a t ih => simp only [List.map_cons, List.findIdx?_cons, ih]
+
+theorem findIdx?_of_mem (ids : List Int) (i : Int) (h : i ∈ ids) : ∃ k, ids.findIdx? (fun x => x = i) = some k := by
+  cases hk : ids.findIdx? (fun x => decide (x = i)) with
+  | some k => exact ⟨k, rfl⟩
+  | none =>
+    have := (findIdx?_none_iff _ _).1 hk i h
+    simp at this
+
+theorem lookup_dictOfZip_notin {υ : Type} (ks : List Int) (vs : List υ) (i : Int) (h : i ∉ ks) :
+    (dictOfZip ks vs).lookup i = none := by
+  induction ks generalizing vs with
+  | nil => cases vs <;> rfl
+  | cons k t ih =>
+    cases vs with
+    | nil => rfl
+    | cons v vt =>
+      have hik : i ≠ k := fun e => h (by simp [e])
+      have hit : i ∉ t := fun e => h (by simp [e])
+      have hb : (i == k) = false := by simpa using hik
+      simp only [dictOfZip]
+      cases hl : (dictOfZip t vt).lookup k with
+      | none => simp [List.lookup_cons, hb, ih vt hit]
+      | some v' =>
+        simp only [List.lookup_cons, hb]
+        rw [List.lookup_eq_none_iff]
+        intro q hq
+        have hq' := (List.mem_filter.1 hq).1
+        have : (dictOfZip t vt).lookup i = none := ih vt hit
+        rw [List.lookup_eq_none_iff] at this
+        exact this q hq'
+
+theorem lookup_dictOfZip (ks : List Int) (vs : List Nat) (i : Int) (hnd : ks.Nodup) (hlen : vs.length = ks.length) :
+    (dictOfZip ks vs).lookup i =
+      match ks.findIdx? (fun x => x = i) with
+      | none => none
+      | some k => vs[k]? := by
+  induction ks generalizing vs with
+  | nil => cases vs <;> rfl
+  | cons k t ih =>
+    cases vs with
+    | nil => simp at hlen
+    | cons v vt =>
+      have hnd' := List.nodup_cons.1 hnd
+      have hrest : (dictOfZip t vt).lookup k = none := lookup_dictOfZip_notin t vt k hnd'.1
+      simp only [dictOfZip, hrest, List.findIdx?_cons]
+      by_cases hik : k = i
+      · subst hik; simp
+      · have hb : (i == k) = false := by simpa using fun e : i = k => hik e.symm
+        simp only [List.lookup_cons, hb, hik, decide_false, Bool.false_eq_true, if_false]
+        rw [ih vt hnd'.2 (by simpa using hlen)]
+        cases t.findIdx? (fun x => decide (x = i)) <;> simp
+
+
+
+/-- position of node id `i` in the id list (0 when absent; only used on members) -/
+def posOf (ids : List Int) (i : Int) : Nat := (ids.findIdx? (fun x => x = i)).getD 0
+
+theorem posOf_spec (ids : List Int) (i : Int) (h : i ∈ ids) :
+    ids.findIdx? (fun x => x = i) = some (posOf ids i) ∧ ∃ hk : posOf ids i < ids.length, ids[posOf ids i] = i := by
+  obtain ⟨k, hk⟩ := findIdx?_of_mem ids i h
+  have : posOf ids i = k := by simp [posOf, hk]
+  rw [this]
+  obtain ⟨hlt, hp⟩ := findIdx?_getElem _ ids k hk
+  exact ⟨hk, hlt, by simpa using hp⟩
+
+theorem posOf_inj (ids : List Int) (i j : Int) (hi : i ∈ ids) (hj : j ∈ ids) (h : posOf ids i = posOf ids j) : i = j := by
+  obtain ⟨_, hk1, h1⟩ := posOf_spec ids i hi
+  obtain ⟨_, hk2, h2⟩ := posOf_spec ids j hj
+  rw [← h1, ← h2]
+  simp [h]
+
+theorem toRx_lookup (ids : List Int) (hnd : ids.Nodup) (i : Int) :
+    (dictOfZip ids (List.range ids.length)).lookup i = ids.findIdx? (fun x => x = i) := by
+  rw [lookup_dictOfZip ids (List.range ids.length) i hnd (by simp)]
+  cases h : ids.findIdx? (fun x => decide (x = i)) with
+  | none => rfl
+  | some k =>
+    have := findIdx?_lt _ _ k h
+    simp [this]
+
+/-! `any` versions (membership of an edge) -/
+theorem any_zip_fst {κ : Type} (p : κ → Bool) (keys : List κ) (ds : List Attrs) (hlen : ds.length = keys.length) :
+    (keys.zip ds).any (fun x => p x.1) = keys.any p := by
+  induction keys generalizing ds with
+  | nil => simp
+  | cons a t ih =>
+    cases ds with
+    | nil => simp at hlen
+    | cons d dt => simp [ih dt (by simpa using hlen)]
+
+
+
+theorem any_eq_isSome_findIdx? {α : Type} (p : α → Bool) (l : List α) : l.any p = (l.findIdx? p).isSome := by
+  induction l with
+  | nil => rfl
+  | cons a t ih =>
+    simp only [List.any_cons, List.findIdx?_cons]
+    cases hp : p a with
+    | true => simp
+    | false =>
+      rw [ih]
+      cases t.findIdx? p <;> simp
+
+/-- in index space, "is the pair `(a, b)` (or `(b, a)` when undirected)" is `sameEdge` in id space -/
+theorem rx_edge_pred (m : MemGeff) (h : MemValid m) (e : Int × Int) (a b : Nat)
+    (hk1 : m.nodeIds.findIdx? (fun x => decide (x = e.1)) = some a)
+    (hk2 : m.nodeIds.findIdx? (fun x => decide (x = e.2)) = some b) :
+    (m.edgeIds.map (fun e => (posOf m.nodeIds e.1, posOf m.nodeIds e.2))).findIdx?
+        (fun x => decide (x = (a, b)) || (!m.directed && decide (x = (b, a)))) =
+      m.edgeIds.findIdx? (fun x => sameEdge m.directed x e) := by
+  obtain ⟨hlta, hpa⟩ := findIdx?_getElem _ _ a hk1
+  obtain ⟨hltb, hpb⟩ := findIdx?_getElem _ _ b hk2
+  have hin1 : e.1 ∈ m.nodeIds := by
+    have : m.nodeIds[a] = e.1 := by simpa using hpa
+    rw [← this]; exact List.getElem_mem hlta
+  have hin2 : e.2 ∈ m.nodeIds := by
+    have : m.nodeIds[b] = e.2 := by simpa using hpb
+    rw [← this]; exact List.getElem_mem hltb
+  have ha : posOf m.nodeIds e.1 = a := by simp [posOf, hk1]
+  have hb : posOf m.nodeIds e.2 = b := by simp [posOf, hk2]
+  simp only [findIdx?_map']
+  apply findIdx?_congr
+  intro x hx
+  have hend := h.endpoints x hx
+  have e1 : (posOf m.nodeIds x.1 = a ↔ x.1 = e.1) := by
+    rw [← ha]; exact ⟨posOf_inj _ _ _ hend.1 hin1, fun h => by rw [h]⟩
+  have e2 : (posOf m.nodeIds x.2 = b ↔ x.2 = e.2) := by
+    rw [← hb]; exact ⟨posOf_inj _ _ _ hend.2 hin2, fun h => by rw [h]⟩
+  have e3 : (posOf m.nodeIds x.1 = b ↔ x.1 = e.2) := by
+    rw [← hb]; exact ⟨posOf_inj _ _ _ hend.1 hin2, fun h => by rw [h]⟩
+  have e4 : (posOf m.nodeIds x.2 = a ↔ x.2 = e.1) := by
+    rw [← ha]; exact ⟨posOf_inj _ _ _ hend.2 hin1, fun h => by rw [h]⟩
+  obtain ⟨x1, x2⟩ := x
+  obtain ⟨e1', e2'⟩ := e
+  simp only [sameEdge, Prod.mk.injEq] at *
+  simp only [e1, e2, e3, e4]
+
+/-- an edge with an endpoint outside the node list is no edge of a valid geff -/
+theorem no_edge_outside (m : MemGeff) (h : MemValid m) (e : Int × Int)
+    (hout : e.1 ∉ m.nodeIds ∨ e.2 ∉ m.nodeIds) :
+    m.edgeIds.findIdx? (fun x => sameEdge m.directed x e) = none := by
+  rw [findIdx?_none_iff]
+  intro x hx
+  have hend := h.endpoints x hx
+  cases hs : sameEdge m.directed x e with
+  | false => rfl
+  | true =>
+    exfalso
+    simp only [sameEdge, Bool.or_eq_true, decide_eq_true_eq, Bool.and_eq_true, Bool.not_eq_true'] at hs
+    rcases hs with hs | ⟨_, hs⟩
+    · subst hs; rcases hout with ho | ho
+      · exact ho hend.1
+      · exact ho hend.2
+    · rw [hs] at hend; rcases hout with ho | ho
+      · exact ho hend.2
+      · exact ho hend.1
+
+theorem rxConstruct_spec (m : MemGeff) (h : MemValid m) :
+    ∃ g, rxConstruct m = .ok g ∧ g.directed = m.directed ∧
+      (∀ i, g.hasNode i = decide (i ∈ m.nodeIds)) ∧
+      (∀ e, g.hasEdge e = m.edgeIds.any (fun x => sameEdge m.directed x e)) ∧
+      (∀ i name, g.nodeAttr i name = specNodeAttr m i name) ∧
+      (∀ e name, g.edgeAttr e name = specEdgeAttr m e name) := by
+  obtain ⟨ds, hds, hdl, hlook⟩ := fillDicts_spec m.nodeIds.length m.nodeProps h.nodeNames h.nodeCols
+  obtain ⟨es, hes, hel, helook⟩ := fillDicts_spec m.edgeIds.length m.edgeProps h.edgeNames h.edgeCols
+  obtain ⟨toRx, htoRx⟩ : ∃ t, t = dictOfZip m.nodeIds (List.range m.nodeIds.length) := ⟨_, rfl⟩
+  have hlk : ∀ i, toRx.lookup i = m.nodeIds.findIdx? (fun x => x = i) := by
+    rw [htoRx]; exact toRx_lookup m.nodeIds h.nodup
+  -- the index pairs of the edges
+  obtain ⟨idx, hidxdef⟩ : ∃ t, t = m.edgeIds.map (fun e => (posOf m.nodeIds e.1, posOf m.nodeIds e.2)) := ⟨_, rfl⟩
+  have hidx : mapE (rxEdgeIdx toRx) m.edgeIds = .ok idx := by
+    rw [hidxdef]
+    apply mapE_ok_map
+    intro e he
+    have hend := h.endpoints e he
+    simp only [rxEdgeIdx, hlk, (posOf_spec _ _ hend.1).1, (posOf_spec _ _ hend.2).1]
+  have hedges : rxEdges toRx m.edgeIds m.edgeProps = .ok (if m.edgeIds.isEmpty then [] else idx.zip es) := by
+    unfold rxEdges
+    by_cases hemp : m.edgeIds.isEmpty = true
+    · simp [hemp]
+    · simp only [hemp, Bool.false_eq_true, if_false, hidx, hes]
+  have hnotin : ∀ i, m.nodeIds.findIdx? (fun x => decide (x = i)) = none → i ∉ m.nodeIds := by
+    intro i hk hin
+    have := (findIdx?_none_iff _ _).1 hk i hin
+    simp at this
+  refine ⟨{ directed := m.directed, slots := ds.map some,
+            edges := if m.edgeIds.isEmpty then [] else idx.zip es, idMap := some toRx },
+          by unfold rxConstruct; simp only [hds]; rw [← htoRx, hedges], rfl, ?_, ?_, ?_, ?_⟩
+  · intro i
+    simp only [RxGraph.hasNode, RxGraph.rxId, hlk]
+    cases hk : m.nodeIds.findIdx? (fun x => decide (x = i)) with
+    | none => simp [hnotin i hk]
+    | some k =>
+      obtain ⟨hlt, hp⟩ := findIdx?_getElem _ _ k hk
+      have hin : i ∈ m.nodeIds := by
+        have : m.nodeIds[k] = i := by simpa using hp
+        rw [← this]; exact List.getElem_mem hlt
+      have : k < ds.length := by omega
+      simp [hin, this]
+  · intro e
+    simp only [RxGraph.hasEdge, RxGraph.rxId, hlk]
+    rw [any_eq_isSome_findIdx? (fun x => sameEdge m.directed x e)]
+    cases hk1 : m.nodeIds.findIdx? (fun x => decide (x = e.1)) with
+    | none => rw [no_edge_outside m h e (Or.inl (hnotin _ hk1))]; rfl
+    | some a =>
+      cases hk2 : m.nodeIds.findIdx? (fun x => decide (x = e.2)) with
+      | none => rw [no_edge_outside m h e (Or.inr (hnotin _ hk2))]; rfl
+      | some b =>
+        simp only []
+        by_cases hemp : m.edgeIds.isEmpty = true
+        · have : m.edgeIds = [] := by simpa using hemp
+          simp [this]
+        · simp only [hemp, Bool.false_eq_true, if_false]
+          rw [any_zip_fst (fun x => decide (x = (a, b)) || (!m.directed && decide (x = (b, a)))) idx es
+            (by simp [hidxdef, hel]), any_eq_isSome_findIdx?, hidxdef, rx_edge_pred m h e a b hk1 hk2]
+  · intro i name
+    simp only [RxGraph.nodeAttr, RxGraph.rxId, hlk, specNodeAttr]
+    cases hk : m.nodeIds.findIdx? (fun x => decide (x = i)) with
+    | none => rfl
+    | some k =>
+      have hlt := findIdx?_lt _ _ k hk
+      have hk' : k < ds.length := by omega
+      have := hlook k hlt name
+      simp only [look, List.getElem?_eq_getElem hk'] at this
+      simp [hk', this]
+  · intro e name
+    simp only [RxGraph.edgeAttr, RxGraph.rxId, hlk, specEdgeAttr]
+    cases hk1 : m.nodeIds.findIdx? (fun x => decide (x = e.1)) with
+    | none => rw [no_edge_outside m h e (Or.inl (hnotin _ hk1))]
+    | some a =>
+      cases hk2 : m.nodeIds.findIdx? (fun x => decide (x = e.2)) with
+      | none => rw [no_edge_outside m h e (Or.inr (hnotin _ hk2))]
+      | some b =>
+        simp only []
+        by_cases hemp : m.edgeIds.isEmpty = true
+        · have : m.edgeIds = [] := by simpa using hemp
+          simp [this, attrOf?]
+        · simp only [hemp, Bool.false_eq_true, if_false]
+          have hz := attr_of_zip (fun x => decide (x = (a, b)) || (!m.directed && decide (x = (b, a)))) idx es
+            (by simp [hidxdef, hel]) name
+          rw [hz, hidxdef, rx_edge_pred m h e a b hk1 hk2]
+          cases hk : m.edgeIds.findIdx? (fun x => sameEdge m.directed x e) with
+          | none => rfl
+          | some k => exact helook k (findIdx?_lt _ _ k hk) name
+
+theorem mem_dedup' {α : Type} [DecidableEq α] (l : List α) (x : α) : x ∈ dedup l ↔ x ∈ l := by
+  induction l with
+  | nil => simp [dedup]
+  | cons a t ih =>
+    simp only [dedup, List.mem_cons, List.mem_filter, ih, ne_eq, decide_not, Bool.not_eq_eq_eq_not,
+      Bool.not_true, decide_eq_false_iff_not]
+    constructor
+    · rintro (h | ⟨h, _⟩)
+      · exact Or.inl h
+      · exact Or.inr h
+    · intro h
+      by_cases hx : x = a
+      · exact Or.inl hx
+      · rcases h with h | h
+        · exact absurd h hx
+        · exact Or.inr ⟨h, hx⟩
+
+theorem nodup_dedup {α : Type} [DecidableEq α] (l : List α) : (dedup l).Nodup := by
+  induction l with
+  | nil => simp [dedup]
+  | cons a t ih =>
+    simp only [dedup, List.nodup_cons, List.mem_filter, ne_eq, decide_not, Bool.not_eq_eq_eq_not, Bool.not_true,
+      decide_eq_false_iff_not, not_and]
+    exact ⟨fun _ h => h trivial, ih.filter _⟩
+
+theorem attrOf_find {κ : Type} (p : κ → Bool) (l : List (κ × Attrs)) (name : String) :
+    attrOf? (l.find? (fun x => p x.1)) name =
+      match (l.map (·.1)).findIdx? p with
+      | none => none
+      | some k => match l[k]? with
+        | none => none
+        | some q => q.2.lookup name := by
+  induction l with
+  | nil => rfl
+  | cons a t ih =>
+    simp only [List.find?_cons, List.map_cons, List.findIdx?_cons]
+    cases hp : p a.1 with
+    | true => simp [attrOf?]
+    | false =>
+      simp only [Bool.false_eq_true, if_false]
+      rw [ih]
+      cases (t.map (·.1)).findIdx? p <;> simp
+
+theorem nodeIdArr_ok (ids : List Int) (h : ∀ i ∈ ids, 0 ≤ i ∧ i < two64) : nodeIdArr ids = .ok ids := by
+  unfold nodeIdArr
+  have h1 : ids.any (· < 0) = false := by
+    simp only [List.any_eq_false, decide_eq_true_eq]
+    intro i hi; have := (h i hi).1; omega
+  have h2 : ids.all (· < two64) = true := by
+    simp only [List.all_eq_true, decide_eq_true_eq]
+    intro i hi; exact (h i hi).2
+  simp [h1, h2]
+
+theorem edgeIdArr_ok (es : List (Int × Int)) (h : ∀ e ∈ es, (0 ≤ e.1 ∧ e.1 < two64) ∧ (0 ≤ e.2 ∧ e.2 < two64)) :
+    edgeIdArr es = .ok es := by
+  unfold edgeIdArr
+  have : es.all (fun e => 0 ≤ e.1 ∧ e.1 < two64 ∧ 0 ≤ e.2 ∧ e.2 < two64) = true := by
+    simp only [List.all_eq_true, decide_eq_true_eq]
+    intro e he; have := h e he; exact ⟨this.1.1, this.1.2, this.2.1, this.2.2⟩
+  rw [if_pos this]
+
+theorem propNames_cover {κ : Type} (data : List (κ × Attrs)) :
+    ∀ d ∈ data, ∀ n v, d.2.lookup n = some v → n ∈ propNames data := by
+  intro d hd n v hl
+  unfold propNames
+  rw [mem_dedup']
+  apply List.mem_flatMap.2
+  exact ⟨d, hd, List.mem_map.2 ⟨(n, v), lookup_mem d.2 n v hl, rfl⟩⟩
+
+/-- documented domain of an attribute graph held by networkx: ids are integers in `[0, 2^64)`,
+no edge twice (a networkx graph is simple; in either orientation when undirected), and every
+property is *regular*: its present values are all scalars, or all lists of one shape, with leaves
+of one class (bool | integers fitting int64 | integers fitting uint64 | float | str) -/
+structure NxDomain (G : NxGraph) : Prop where
+  nodup : (G.nodes.map (·.1)).Nodup
+  idRange : ∀ i ∈ G.nodes.map (·.1), 0 ≤ i ∧ i < two64
+  endpoints : ∀ e ∈ G.edges.map (·.1), e.1 ∈ G.nodes.map (·.1) ∧ e.2 ∈ G.nodes.map (·.1)
+  simple : (G.edges.map (·.1)).Pairwise (fun a b => sameEdge G.directed a b = false)
+  nodeProps : ∀ name, ∃ K sh, RegularVals K sh (present G.nodes name)
+  edgeProps : ∀ name, ∃ K sh, RegularVals K sh (present G.edges name)
+
+/-- `NxBackend.write` on the documented domain: it succeeds, the in-memory geff is valid and denotes `G` -/
+theorem nxWrite_spec (G : NxGraph) (h : NxDomain G) :
+    ∃ m, nxWrite G = .ok m ∧ MemValid m ∧ m.directed = G.directed ∧
+      (∀ i name, specNodeAttr m i name = G.nodeAttr i name) ∧
+      (∀ e name, specEdgeAttr m e name = G.edgeAttr e name) ∧
+      m.nodeIds = G.nodes.map (·.1) ∧ m.edgeIds = G.edges.map (·.1) := by
+  obtain ⟨np, hnp, hnn, hnwf, hnattr⟩ := dictPropsToArr_spec G.nodes (propNames G.nodes)
+    (fun n _ => h.nodeProps n) (propNames_cover G.nodes)
+  obtain ⟨ep, hep, hen, hewf, heattr⟩ := dictPropsToArr_spec G.edges (propNames G.edges)
+    (fun n _ => h.edgeProps n) (propNames_cover G.edges)
+  have hids := nodeIdArr_ok (G.nodes.map (·.1)) h.idRange
+  have heds := edgeIdArr_ok (G.edges.map (·.1)) (fun e he =>
+    ⟨h.idRange _ (h.endpoints e he).1, h.idRange _ (h.endpoints e he).2⟩)
+  refine ⟨{ directed := G.directed, nodeIds := G.nodes.map (·.1), edgeIds := G.edges.map (·.1),
+            nodeProps := np, edgeProps := ep }, ?_, ?_, rfl, ?_, ?_, rfl, rfl⟩
+  · simp only [nxWrite, writeDicts, hids, heds, hnp, hep, bind, Except.bind, pure, Except.pure]
+  · exact { nodup := h.nodup, endpoints := h.endpoints, simple := h.simple,
+            nodeNames := by rw [hnn]; exact nodup_dedup _,
+            edgeNames := by rw [hen]; exact nodup_dedup _,
+            nodeCols := by simpa using hnwf, edgeCols := by simpa using hewf }
+  · intro i name
+    simp only [specNodeAttr, NxGraph.nodeAttr]
+    rw [attrOf_find (fun x => decide (x = i)) G.nodes name]
+    cases hk : (G.nodes.map (·.1)).findIdx? (fun x => decide (x = i)) with
+    | none => rfl
+    | some k =>
+      have hlt : k < G.nodes.length := by simpa using findIdx?_lt _ _ k hk
+      simp only [List.getElem?_eq_getElem hlt]
+      exact hnattr k hlt name
+  · intro e name
+    simp only [specEdgeAttr, NxGraph.edgeAttr]
+    rw [attrOf_find (fun x => sameEdge G.directed x e) G.edges name]
+    cases hk : (G.edges.map (·.1)).findIdx? (fun x => sameEdge G.directed x e) with
+    | none => rfl
+    | some k =>
+      have hlt : k < G.edges.length := by simpa using findIdx?_lt _ _ k hk
+      simp only [List.getElem?_eq_getElem hlt]
+      exact heattr k hlt name
 
 
 end Geff.Backends
